@@ -68,6 +68,15 @@ def size_seq(a: int, b: int, c: int) -> bool:
                 m_bytes = m_bytes[:v]
             else:
                 m_bytes = m_bytes + [0] * (v - len(m_bytes))
+        elif op == "C":
+            # content edit that leaves MORE stored bytes than size (the caller's doing); the next size assignment below the
+            # stored count must truncate, whatever the previous size was
+            nxt = ops[k + 1] if k + 1 < len(ops) else None
+            if nxt != "s":
+                return done()
+            bi.contents = bytearray([8] * 5)
+            m_bytes = [8] * 5
+            continue
         else:
             # content edit: replace the stored bytes by k+1 bytes of value 9 (only when that fits the size)
             n = k + 1
@@ -213,7 +222,7 @@ def shards(tier):
     for L in Ls:
         for extra in (0, 2):
             for k in range(1, K + 1):
-                for ops in itertools.product("sic", repeat=k):
+                for ops in list(itertools.product("sic", repeat=k)) + ([("C", "s")] if k == 2 else []) + ([("s", "C", "s"), ("C", "s", "i")] if k == 3 else []):
                     out.append({"fn": "size_seq", "consts": {"L": L, "extra": extra, "ops": "".join(ops)}, "timeout": 600,
                                 "twin": "first", "cover": "first"})
         out.append({"fn": "ctor", "consts": {"L": L}, "timeout": 300})
